@@ -30,6 +30,22 @@ def base_cfgs(tier, fixed):
             cs.append(F.line3(c1, c2, order=order))
         cs.append(F.join3(c1, c2))
         cs.append(F.fan3(c1, c2, order=("C", "A", "B")))
+    # leaf consumers that declare themselves FINISHED before the end time (they must not be updated again, the run still ends)
+    for fin in (1, 2, 3.5):
+        for order in (("A", "B"), ("B", "A")):
+            c = F.pair([], order=order)
+            c["comps"][1]["finish_at"] = fin
+            cs.append(c)
+        c = F.pair([F.TOK["L"]], starts=(0, 1))
+        c["comps"][1]["finish_at"] = fin
+        cs.append(c)
+        for order in (("A", "B", "C"), ("C", "B", "A"), ("B", "C", "A")):
+            c = F.fan3([], [F.TOK["F1"]], order=order)
+            c["comps"][2]["finish_at"] = fin
+            cs.append(c)
+            c = F.line3([], [], order=order)
+            c["comps"][2]["finish_at"] = fin
+            cs.append(c)
     for order in F.orders(["A", "P", "B"], all_orders=not q):
         cs.append(F.viaP([], [], order=order, menu=(1, 2)))
         cs.append(F.viaP([F.TOK["L"]], [F.TOK["F1"]], order=order, menu=(1, 2)))
@@ -83,7 +99,7 @@ def run(tier, seed, agg):
         rule="explicit-state BFS over the real Composition.run for 7 (quick) / 10 (thorough) end times per family (step lengths are environment choices) plus fixed cyclic step lists crossed with the full half-hour "
         "end-time lattice (incl. end <= start); life-cycle automaton per component and finalize counter per adapter are part of the state; update cap turns a hang into a violation",
         bound=dict(end_times="-1 .. 7 h" if tier == "quick" else "-1 .. 12 h (half-hour lattice)", step_menu="{1,2,3}/{1,2}", update_cap=400),
-        assumptions=["components never report FINISHED early", "valid compositions only (acyclic or delay-resolved rings)"],
+        assumptions=["only leaf consumers declare themselves FINISHED early (a producer that finishes while a consumer still needs it is not a valid composition)", "valid compositions only (acyclic or delay-resolved rings)"],
     )
 
 
